@@ -9,7 +9,7 @@ from sim.det import statemod
 ID = "C08"
 LEVEL = "exploration"
 TECHNIQUE = "deterministic simulation: storage rows decoded and compared with the live entries after every simulated engine step; reload equivalence; seeded codec round-trip"
-RULE = ("family 'engine': the C01 run families, with the event feed additionally breaking (CloudTemporaryError) after 0-2 events of an intake in a third of the split-intake steps, so that batches are abandoned half-way; after every event-intake step, every sync step and at quiet the rows stored under the sync's tag are decoded and compared "
+RULE = ("family 'engine': the C01 run families, with the event feed additionally breaking (CloudTemporaryError) after 0-2 events of an intake in a third of the split-intake steps, so that batches are abandoned half-way, and in a fifth of the runs a synchronised file turned unreadable on one side (CloudCorruptError on download) so that the corrupt marker and its saved existence are persisted too; after every event-intake step, every sync step and at quiet the rows stored under the sync's tag are decoded and compared "
         "with the live non-trash entries (exactly one row per entry, equal decoded content, no orphan row) and, on a sample of boundaries, a second SyncState is built from a copy "
         "of the rows and compared (entries, id/path lookups, pending set). family 'codec' (generated inputs, not simulated runs): SyncEntry.serialize -> deserialize round trip over "
         "hash shapes bytes/str/int/nested tuple/dict, unicode paths, None fields, every Exists/IgnoreReason incl. the corrupt marker with its saved value, and legacy rows "
@@ -51,9 +51,28 @@ class StorageMonitor:
                 raise Violation("reload-differs", "after %s: %s" % (item, m))
 
 
+def _x_corrupt(ex, side, rel):
+    """from now on the provider reports the object at rel as unreadable (download raises CloudCorruptError): the engine then
+    records the corrupt marker and the saved existence, which are part of what C08 says is persisted"""
+    w = ex.world
+    info = w.provs[side].info_path(w.roots[side] + rel)
+    if not info or info.otype.value != "file":
+        return False
+    w.ctl.corrupt.setdefault(side, set()).add(info.oid)
+    return True
+
+
 def _setup(ex, case):
     ex.smon = StorageMonitor(reload_every=case.get("reload_every", 7))
     ex.monitors.append(ex.smon)
+    ex.actions["corrupt"] = _x_corrupt
+    orig_disarm = ex.world.ctl.disarm
+
+    def disarm():
+        keep = dict(ex.world.ctl.corrupt)
+        orig_disarm()
+        ex.world.ctl.corrupt = keep         # an unreadable object stays unreadable through the epilogue
+    ex.world.ctl.disarm = disarm
 
 
 def _verdict(ex, case):
@@ -212,7 +231,17 @@ def generate(rng, tier, index):
     flav = rng.choice(ALL_FLAVOURS)
     style = weighted(rng, (("eager", 2), ("batched", 4), ("bursty", 2), ("split", 4)))
     case = {"prop": ID, "cfg": {"flavour": flav}, "style": style, "family": style}
-    return drive(case, lambda ex: gen_history(rng, ex, rng.randint(1, 7), style=style, mix=random_mix(rng), midfail=0.35), _verdict, setup=_setup, generating=True)
+    corrupt = rng.random() < 0.2
+
+    def body(ex):
+        if corrupt:
+            # a synchronised file becomes unreadable on one side, then the history goes on (writes to it included)
+            side = rng.randrange(2)
+            ex.apply(["U", side, "create", "/a", ex.new_payload()])
+            ex.apply(["Q"])
+            ex.apply(["X", "corrupt", rng.randrange(2), "/a"])
+        gen_history(rng, ex, rng.randint(1, 7), style=style, mix=random_mix(rng), midfail=0.35)
+    return drive(case, body, _verdict, setup=_setup, generating=True)
 
 
 def replay(case):
